@@ -236,6 +236,10 @@ class PX:
         for n, v in zip(pos, args):
             locs[n] = v
         extra_kw = {}
+        if top and a.vararg and a.vararg.arg in kwargs:
+            locs[a.vararg.arg] = tuple(kwargs.pop(a.vararg.arg))
+        if top and a.kwarg and a.kwarg.arg in kwargs:
+            extra_kw.update(kwargs.pop(a.kwarg.arg))
         allowed = set(pos) | {x.arg for x in a.kwonlyargs}
         for k, v in kwargs.items():
             if k in allowed:
@@ -531,12 +535,12 @@ class PX:
         if model is not None:
             val = self.apply_model(model, "with:" + text, list(args), kwargs, fr, st, awaited=is_async, kind="enter")
         else:
-            self.emit("enter", text, args, kwargs, node=st, frame=fr)
             if is_async:
                 self.epoch += 1
                 if self.cancel and self.choose(2, f"cancel@enter {text}"):
                     self.emit("cancelled", "enter " + text, node=st, frame=fr)
                     raise Exc("CancelledError", origin="enter " + text)
+            self.emit("enter", text, args, kwargs, node=st, frame=fr)
         if item.optional_vars is not None:
             self.assign(item.optional_vars, val, fr)
         is_timeout = text.endswith("asyncio_timeout") or text.endswith("asyncio.timeout")
@@ -740,6 +744,8 @@ class PX:
             if key in self.symfields:
                 return self.symfields[key]
             return Sym(f"{b.tag}.{attr}")
+        if isinstance(b, ClassRef) and attr == "__mro__":
+            return tuple(b.mro()) + (TypeRef("builtins.object"),)
         if isinstance(b, (ModuleRef, ClassRef, Record)):
             if isinstance(b, ClassRef):
                 try:
@@ -1255,6 +1261,23 @@ class PX:
             return self.opaque(text, args, kw, fr, node, awaited, cal)
         if isinstance(fval, ClassRef):
             return self.construct(fval, text, args, kw, fr, node)
+        if isinstance(fval, TypeRef) and fval.name == "builtins.int.from_bytes" and args and isinstance(args[0], (bytes, bytearray)):
+            order = args[1] if len(args) > 1 else kw.get("byteorder", "big")
+            return int.from_bytes(bytes(args[0]), order, signed=bool(kw.get("signed", False)))
+        if isinstance(fval, TypeRef) and fval.short == "deserialize" and args and isinstance(args[0], (bytes, bytearray)):
+            base = TypeRef(fval.name.rsplit(".", 1)[0])
+            it = int_type_of(base)
+            if it:
+                n = it[0] // 8
+                if len(args[0]) < n:
+                    raise Exc("ValueError", ("data too short",), origin=text)
+                return ZInt(int.from_bytes(bytes(args[0][:n]), "little", signed=it[1]), *it), bytes(args[0][n:])
+        if isinstance(fval, TypeRef) and int_type_of(fval) and len(args) == 1 and isinstance(args[0], (int, Member)) and not kw:
+            bits, signed = int_type_of(fval)
+            v = int(args[0])
+            if not (-(1 << (bits - 1)) <= v < (1 << (bits - 1)) if signed else 0 <= v < (1 << bits)):
+                raise Exc("ValueError", (v,), origin=text)
+            return ZInt(v, bits, signed)
         if isinstance(fval, TypeRef):
             short = fval.short
             if short in self.hier.parent or short.endswith(("Error", "Exception")):
@@ -1263,6 +1286,9 @@ class PX:
         return self.opaque(text, args, kw, fr, node, awaited, _short(fval) if isinstance(fval, Sym) else None)
 
     def construct(self, cls, text, args, kw, fr, node):
+        it = int_type_of(cls)
+        if it and len(args) == 1 and isinstance(args[0], (int, Member)) and not kw:
+            return ZInt(int(args[0]), *it)
         if cls.is_enum:
             if len(args) == 1 and not kw:
                 a = args[0]
@@ -1420,6 +1446,13 @@ class PX:
             return False
         if n in ("print",):
             return None
+        if n == "vars" and len(args) == 1:
+            if isinstance(args[0], ClassRef):
+                return {k: v for k, v in args[0].attrs.items()}
+            if isinstance(args[0], TypeRef):
+                return {}
+            if isinstance(args[0], Obj):
+                return {k: v for k, v in args[0].fields.items() if isinstance(k, str)}
         if n in PURE_BUILTINS:
             pyargs = []
             for a in args:
@@ -1484,6 +1517,40 @@ class PX:
                 if isinstance(v, Obj) and isinstance(v.cls, ClassRef) and nm in v.cls.base_names():
                     return True
         return False
+
+
+import re as _re
+
+_INT_T = _re.compile(r"^(u?)int(\d+)(_t|s)$")
+
+
+class ZInt(int):
+    """A zigpy fixed-width integer (trusted base: little-endian codec of the declared width)."""
+
+    def __new__(cls, value, bits, signed):
+        o = int.__new__(cls, value)
+        o.bits, o.signed = bits, signed
+        return o
+
+    def serialize(self):
+        try:
+            return int(self).to_bytes(self.bits // 8, "little", signed=self.signed)
+        except OverflowError:
+            raise ValueError("out of range")
+
+
+def int_type_of(t):
+    """(bits, signed) if ``t`` (TypeRef or ClassRef) is a zigpy fixed-width integer type, else None."""
+    names = []
+    if isinstance(t, TypeRef) and not t.args:
+        names = [t.short]
+    elif isinstance(t, ClassRef) and not t.is_enum:
+        names = t.base_names()
+    for n in names:
+        m = _INT_T.match(n)
+        if m:
+            return int(m.group(2)), (m.group(1) == "" and m.group(3) == "s") or (m.group(1) == "" and m.group(3) == "_t" and False)
+    return None
 
 
 class _PyMethod:
